@@ -16,13 +16,24 @@ def gen(rng):
         ver[c] = rng.choice([4, 5, 5])
         ops.append(f"conn {c} c{c} v={ver[c]} cs=1")
     pid, tag = 0, 0
+    bound = {}            # topic alias -> topic, as registered on the publisher's connection (v5 only)
     def do_pub():
         nonlocal pid, tag
         tag += 1; pid += 1
         q = rng.choice([0, 1, 2])
         r = 1 if rng.random() < 0.8 else 0
-        empty = r == 1 and rng.random() < 0.25
-        ops.append(f"pub p {rng.choice(TOPICS)} q={q} pid={pid if q else 0} r={r} tag={'~' if empty else 'm' + str(tag)}")
+        empty = r == 1 and rng.random() < (0.4 if bound else 0.25)
+        t, a = rng.choice(TOPICS), ""
+        if vp == 5 and rng.random() < 0.4:
+            # v5 publisher: register an alias with the topic, or name the topic by a registered alias ONLY (empty
+            # topic name on the wire) - storing, replacing and clearing must all act on the resolved topic (seed C07-3)
+            k = rng.choice([1, 2, 3])
+            if k in bound and rng.random() < 0.65:
+                t = "~"
+            else:
+                bound[k] = t
+            a = f" a={k}"
+        ops.append(f"pub p {t} q={q} pid={pid if q else 0} r={r}{a} tag={'~' if empty else 'm' + str(tag)}")
         if q == 2:
             ops.append(f"rel p {pid}")
         for c in subs:
@@ -60,6 +71,7 @@ def predicate(ops, out):
     if len(out) != len(ops) or (out and out[0].startswith("CRASH")):
         return "implementation crashed or hung: " + (out[0] if out else "")
     kept = {}                 # topic -> (tag, qos)
+    alias = {}                # (connection, alias) -> topic registered with it
     ver, cid = {}, {}
     have = collections.defaultdict(set)   # cid -> set of full filter names subscribed
     deferred = None
@@ -72,14 +84,22 @@ def predicate(ops, out):
             cid[f[1]] = f[2]; ver[f[1]] = int(next((x[2:] for x in f if x.startswith("v=")), "4"))
         elif f[0] == "pub":
             kv = dict(x.split("=", 1) for x in f if "=" in x)
-            if kv.get("r") == "1":
-                h = conns.get(f[1], ([], []))[0]
-                if any(x.startswith(("disconnect", "closed")) for x in h):
-                    continue
-                if kv.get("tag", "~") == "~":
-                    kept.pop(f[2], None)
+            h = conns.get(f[1], ([], []))[0]
+            if any(x.startswith(("disconnect", "closed")) for x in h):
+                continue
+            topic = f[2]
+            if "a" in kv:
+                if topic == "~":
+                    topic = alias.get((f[1], kv["a"]))
+                    if topic is None:
+                        continue          # unknown alias: a protocol error, the broker must have closed (checked by C13)
                 else:
-                    kept[f[2]] = (kv["tag"], int(kv.get("q", 0)))
+                    alias[(f[1], kv["a"])] = topic
+            if kv.get("r") == "1":
+                if kv.get("tag", "~") == "~":
+                    kept.pop(topic, None)
+                else:
+                    kept[topic] = (kv["tag"], int(kv.get("q", 0)))
         elif f[0] == "unsub":
             for tp in f[3:]:
                 have[cid[f[1]]].discard(tp)
@@ -144,7 +164,7 @@ def nontrivial(ops, out):
     for op, line in zip(ops, out):
         f = op.split()
         if f[0] == "pub" and " r=1" in op:
-            if f[2] in seen:
+            if f[2] in seen or f[2] == "~":
                 changed = True
             seen.add(f[2])
         if f[0] == "sub" and changed and "publish(" in line:
